@@ -23,6 +23,7 @@ import (
 //
 //	c08.hist <step>…   d+<n> / d-<n> dependency added / removed; c<n>.<id><v|i> configuration (valid / invalid);
 //	                   e<n>+<a,b>-<c,d> endpoint update (added, removed; either part may be empty: "e1+-3");
+//	                   c<n>.<id>u a configuration that passes Validate() but from which no processor can be made; c<n>.nil an update without one;
 //	                   k<j> the controller consumes j pending events (all pending events are consumed at the end)
 //	   -> store <n>:<cfg id|->:<endpoints|nil>;… | procs <n>:<cfg id>:<hosts sorted>;…
 type c08 struct{}
@@ -57,6 +58,9 @@ func (p *recProc) OnSvcAllHostReplace(hs []*host.Host) error {
 	return nil
 }
 func (p *recProc) OnSvcConfigUpdate(c *service.Config) error {
+	if c != nil && c.Protocol == protocol.MySQL {
+		return errors.New("no processor can be made from this configuration")
+	}
 	if err := c.Validate(); err != nil {
 		return err
 	}
@@ -95,8 +99,70 @@ func c08Endpoints(s string) []*service.Endpoint {
 	return out
 }
 
+// aliasRun: a service with n endpoints is announced; while the controller turns the announcement into a processor, k endpoints
+// are removed one by one; then everything pending is consumed. -> missing=<hosts the store has and the processor lacks> extra=<the reverse>
+func aliasRun(n, k int) string {
+	return recoverStr(func() string {
+		controller.VerifSetNewProc(func(name string, cfg *service.Config, hosts []*host.Host) (proc.Proc, error) {
+			return &recProc{name: name, cfg: cfg, hosts: host.NewSet(hosts...)}, nil
+		})
+		store := config.VerifNewStore(4096)
+		ctl, _ := controller.New(store.Subscribe())
+		var eps []*service.Endpoint
+		for i := 0; i < n; i++ {
+			eps = append(eps, &service.Endpoint{Address: &common.Address{Ip: fmt.Sprintf("10.%d.%d.%d", i>>16, (i>>8)&255, i&255), Port: 1000}})
+		}
+		store.VerifDependencyUpdate([]*service.Service{{Name: "svc"}}, nil)
+		store.VerifSvcEndpointUpdate("svc", eps, nil)
+		store.VerifSvcConfigUpdate("svc", c08Config(1, true)) // announces the service
+		done := make(chan struct{})
+		go func() {
+			defer close(done)
+			ctl.VerifHandleEvent(<-store.Subscribe())
+		}()
+		for i := 0; i < k; i++ {
+			store.VerifSvcEndpointUpdate("svc", nil, []*service.Endpoint{eps[i*(n/k)]})
+		}
+		<-done
+		for {
+			select {
+			case evt := <-store.Subscribe():
+				ctl.VerifHandleEvent(evt)
+				continue
+			default:
+			}
+			break
+		}
+		want := map[string]bool{}
+		for _, sw := range store.VerifDump() {
+			for _, e := range sw.Endpoints {
+				want[fmt.Sprintf("%s:%d", e.Address.Ip, e.Address.Port)] = true
+			}
+		}
+		missing, extra := len(want), 0
+		for _, p := range ctl.GetAllProcs() {
+			for _, h := range p.(*recProc).hosts.All() {
+				if want[h.Addr] {
+					missing--
+				} else {
+					extra++
+				}
+			}
+		}
+		return fmt.Sprintf("missing=%d extra=%d", missing, extra)
+	})
+}
+
 func (c08) Exec(op string) string {
 	f := hx.Fields(op)
+	if len(f) == 3 && f[0] == "c08.alias" {
+		n, e1 := strconv.Atoi(f[1])
+		k, e2 := strconv.Atoi(f[2])
+		if e1 != nil || e2 != nil || n < 1 || k < 1 || k > n {
+			return "bad-op"
+		}
+		return aliasRun(n, k)
+	}
 	if len(f) < 2 || (f[0] != "c08.hist" && f[0] != "c08.strict") {
 		return "bad-op"
 	}
@@ -104,6 +170,10 @@ func (c08) Exec(op string) string {
 		controller.VerifSetNewProc(func(name string, cfg *service.Config, hosts []*host.Host) (proc.Proc, error) {
 			if cfg == nil || cfg.Validate() != nil {
 				return nil, errors.New("invalid config")
+			}
+			if cfg.Protocol == protocol.MySQL {
+				// like proc.New: the protocol is in the enum (Validate accepts it) but has no builder
+				return nil, errors.New("no builder")
 			}
 			return &recProc{name: name, cfg: cfg, hosts: host.NewSet(hosts...)}, nil
 		})
@@ -134,8 +204,17 @@ func (c08) Exec(op string) string {
 				if len(p) != 2 || len(p[1]) < 2 {
 					return "bad-op"
 				}
+				if p[1] == "nil" {
+					// a map entry without a value on the wire
+					store.VerifSvcConfigUpdate(svcName(p[0]), nil)
+					continue
+				}
 				id, _ := strconv.Atoi(p[1][:len(p[1])-1])
-				store.VerifSvcConfigUpdate(svcName(p[0]), c08Config(id, p[1][len(p[1])-1] == 'v'))
+				cfg := c08Config(id, p[1][len(p[1])-1] != 'i')
+				if p[1][len(p[1])-1] == 'u' {
+					cfg.Protocol = protocol.MySQL // passes Validate, no processor can be made from it
+				}
+				store.VerifSvcConfigUpdate(svcName(p[0]), cfg)
 			case 'e':
 				i := strings.Index(st, "+")
 				j := strings.LastIndex(st, "-")
@@ -225,8 +304,15 @@ func (c08) Gen(r *hx.Run) {
 			case x < 6:
 				cfgID++
 				v := "v"
-				if rng.Intn(4) == 0 {
+				switch rng.Intn(10) {
+				case 0, 1:
 					v = "i"
+				case 2:
+					v = "u" // passes Validate(), no processor can be made from it
+				case 3:
+					// a map entry without a value on the wire
+					steps = append(steps, fmt.Sprintf("c%d.nil", s))
+					continue
 				}
 				steps = append(steps, fmt.Sprintf("c%d.%d%s", s, cfgID, v))
 			case x < 10:
@@ -244,7 +330,12 @@ func (c08) Gen(r *hx.Run) {
 		"d+1 c1.1v e1+1- d-1 d+1 c1.2v e1+2-", // remove and re-add
 		"d+1 c1.1v e1+1- c1.2i c1.3v",         // valid, invalid, valid
 		"d+1 e1+1,2- c1.1v k1 e1+-1 e1+3-",    // store ahead of the controller
+		"d+1 e1+1- c1.1v c1.nil c1.2v",        // F-08e: an update without a configuration between two configurations
+		"d+1 c1.1u e1+1- c1.2v",               // F-08e: valid but no processor can be made from it, later corrected
 	} {
 		r.Do("c08.hist "+h, true, "hist-shapes")
 	}
+	// F-08e: the announcement is read while endpoints are being removed
+	r.Do("c08.alias 30000 40", true, "announce-while-endpoints-change")
+	r.Do(fmt.Sprintf("c08.alias %d %d", 5000+rng.Intn(20000), 10+rng.Intn(30)), true, "announce-while-endpoints-change")
 }
